@@ -97,6 +97,9 @@ impl Static {
                         push(&mut steps, st, false, &suffix);
                     }
                     let mut tags: Vec<String> = s.tags.clone();
+                    if s.examples.is_some() {
+                        tags.extend(s.examples_tags.iter().cloned());
+                    }
                     if let Some(r) = rule {
                         tags.extend(r.tags.iter().cloned());
                     }
